@@ -78,13 +78,19 @@ theorem C05_policy_raises (s s' : St) (d : Nat) (h : step s (.cbPolicy d (some .
   · cases h
 
 /-- (no early resolution) A step makes a future terminal only when it is: the finalisation of a finished attempt
-after the policy declined (`cbFinal`), the discard of a stopped job, a cancelled delegate, or the end of a `cancel()`. -/
+after the policy declined (`cbFinal`), the discard of a stopped job, the `_me_delegate_cancelled()` of a cancelled delegate, or the
+end of a `cancel()`. -/
 theorem C05_no_early_resolution (s s' : St) (a : Act) (f : Nat) (h : step s a = some s') (h0 : f ∉ s.done) (h1 : f ∈ s'.done) :
-    (∃ d, a = .cbFinal d) ∨ (∃ j, a = .discard j) ∨ (∃ d, a = .cbCancelled d) ∨ (∃ g, a = .cancelEnd g) := by
+    (∃ d, a = .cbFinal d) ∨ (∃ j, a = .discard j) ∨ (∃ g d i, a = .cbMark g d i) ∨ (∃ g, a = .cancelEnd g) := by
   cases a with
   | cbFinal d => exact Or.inl ⟨d, rfl⟩
   | discard j => exact Or.inr (Or.inl ⟨j, rfl⟩)
-  | cbCancelled d => exact Or.inr (Or.inr (Or.inl ⟨d, rfl⟩))
+  | cbMark g d i => exact Or.inr (Or.inr (Or.inl ⟨g, d, i, rfl⟩))
+  | cbCancelled d =>
+    simp only [step] at h
+    split at h
+    · split at h <;> cases h; exact absurd h1 h0
+    · cases h
   | cancelEnd g => exact Or.inr (Or.inr (Or.inr ⟨g, rfl⟩))
   | submit g =>
     simp only [step] at h; split at h <;> cases h; exact absurd h1 h0
